@@ -563,6 +563,11 @@ func typeOfPath(root *TType, path []pstep) *TType {
 
 // verifyAll decodes every live handle and compares it with its model.
 func (c *c04) verifyAll(after string, edited *c04Handle, insParent *TVal, insIdx int) {
+	if i := strings.IndexByte(after, ' '); i > 0 {
+		c.w.Sig("op:" + after[:i])
+	} else {
+		c.w.Sig("op:" + after)
+	}
 	for _, h := range c.handles {
 		raw := h.raw()
 		got, n, err := decodeThrift(raw, c.rootT, 0)
